@@ -143,6 +143,14 @@ Section CatalogProofs.
       pose proof (exec_pipeline_cat s n (the_tree n p r) (r_aliases r) (r_inline r ++ mids) use_cache (iv_nodebug _ _ _ _ I) C) as H.
       destruct (exec_pipeline K keqb hash s n (the_tree n p r) (r_aliases r) (r_inline r ++ mids) use_cache) as [[s1 h] ev].
       cbn in *. exact H.
+    - (* IComputeConcat *)
+      destruct (aget (st_cache K s) (named K CONCAT)); cbn -[exec_pipeline]; [split; [exact C|apply kept_refl]|].
+      destruct (aget (st_cache K s) (named K CWTF)); cbn -[exec_pipeline]; [split; [exact C|apply kept_refl]|].
+      pose proof (exec_pipeline_cat s CONCAT (concat_tree K s) [] [] true (iv_nodebug _ _ _ _ I) C) as H.
+      destruct (exec_pipeline K keqb hash s CONCAT (concat_tree K s) [] [] true) as [[s1 h] ev].
+      cbn in *. exact H.
+    - (* IFreshUid *)
+      split; [exact C|intros l e H; exact H].
     - (* IDrop *)
       destruct (nth_error regs i) eqn:E; cbn; [|split; [exact C|apply kept_refl]].
       assert (Hh : cbs_hashed K h). { unfold CacheP.regs_ok in Hr. rewrite Forall_forall in Hr. apply Hr. eapply nth_error_In; eauto. }
@@ -219,25 +227,27 @@ Section CatalogProofs.
   Qed.
 
   Lemma cstep_inv s c :
-    cop_safe c = true -> CInv s -> CInv (fst (cstep s c)) /\ kept s (fst (cstep s c)).
+    cop_safe (st_fix K s) c = true -> CInv s ->
+    CInv (fst (cstep s c)) /\ kept s (fst (cstep s c)) /\ st_fix K (fst (cstep s c)) = st_fix K s.
   Proof.
     intros Hok (I & Hs & C). destruct c; cbn -[run_op exec_pipeline] in *.
     - (* COp *)
       apply andb_true_iff in Hok. destruct Hok as [Hh Hn].
       assert (Hne : forall v, o <> ChangeInputInvalidate v) by (intros v ->; discriminate).
-      pose proof (step_inv K keqb hash keqb_spec hash_inj s o Hh (conj I Hs)) as H. destruct H as ([I' Hs'] & _).
+      pose proof (step_inv K keqb hash keqb_spec hash_inj s o Hh (conj I Hs)) as H. destruct H as ([I' Hs'] & _ & _ & _ & Hfx).
+      unfold step in Hfx.
       unfold step in I', Hs'. unfold run_op, run_prog in *.
       pose proof (run_prog_cat (prog_of_op K s o) s [] [] (prog_plain K s o Hh Hne) I Hs (Forall_nil _) C) as HC.
       destruct (fold_left (step_instr K keqb hash) (prog_of_op K s o) (s, [], [])) as [[s1 regs1] tr1]. cbn in *.
-      destruct HC as [C1 K1]. split; [split; [|split]|]; auto.
+      destruct HC as [C1 K1]. split; [split; [|split]|split]; auto.
     - (* CRegisterTable *)
       apply negb_true_iff in Hok. subst overwrite. rewrite andb_true_r.
-      destruct (amem (st_db K s) (PL (LPlain name))) eqn:Em; cbn; [split; [split; [|split]; auto|apply kept_refl]|].
-      apply register_leaf_inv; [split; [|split]; auto|auto|]. intros b u X. discriminate.
+      destruct (amem (st_db K s) (PL (LPlain name))) eqn:Em; cbn; [split; [split; [|split]; auto|split; [apply kept_refl|auto]]|].
+      destruct (register_leaf_inv s (LPlain name) (PInput name ver) (conj I (conj Hs C)) Em) as [A B]; [intros b u X; discriminate|].
+      split; [exact A|split; [exact B|reflexivity]].
     - (* CDropTable *)
-      apply negb_true_iff in Hok. subst force. cbn. split; [split; [|split]; auto|apply kept_refl].
+      apply negb_true_iff in Hok. subst force. cbn. split; [split; [|split]; auto|split; [apply kept_refl|auto]].
     - (* CRealtime *)
-      apply negb_true_iff in Hok. subst cached.
       set (u := st_ctr K s).
       set (s0 := set_luid_ctr K s (st_luid K s) (S u)).
       assert (J0 : CInv s0).
@@ -257,25 +267,37 @@ Section CatalogProofs.
       destruct (register_leaf_inv s1 (LUid RTR u) (PRecords u) J1 E2 F2) as [J2 K2].
       set (s2 := register_leaf K keqb s1 (LUid RTR u) (PRecords u)) in *.
       destruct J2 as (I2 & S2 & C2).
-      set (T := Cte PREDICT 999 [Leaf (LUid RTL u); Leaf (LUid RTR u)]).
-      pose proof (exec_pipeline_spec K keqb hash keqb_spec hash_inj s2 PREDICT T [RTL; RTR]
-                                     ["__splink__compare_two_records_blocked"; CVV; MWP] true I2 S2 eq_refl) as H.
-      pose proof (exec_pipeline_cat s2 PREDICT T [RTL; RTR] ["__splink__compare_two_records_blocked"; CVV; MWP] true
-                                    (iv_nodebug _ _ _ _ I2) C2) as HC.
-      destruct (exec_pipeline K keqb hash s2 PREDICT T [RTL; RTR] ["__splink__compare_two_records_blocked"; CVV; MWP] true)
-        as [[s3 h] ev].
-      cbn in H, HC |- *. destruct H as (I3 & S3 & _). destruct HC as [C3 K3].
-      split; [split; [|split]; auto|].
       assert (K0 : kept s s0) by (intros l e X; exact X).
-      eapply kept_trans; [exact K0|]. eapply kept_trans; [exact K1|]. eapply kept_trans; [exact K2|exact K3].
+      assert (K02 : kept s s2) by (eapply kept_trans; [exact K0|]; eapply kept_trans; [exact K1|exact K2]).
+      assert (Gen : forall templ T al mids uc, name_of T = templ ->
+                let r := exec_pipeline K keqb hash s2 templ T al mids uc in
+                CInv (fst (fst r)) /\ kept s (fst (fst r)) /\ st_fix K (fst (fst r)) = st_fix K s).
+      { intros templ T al mids uc Hn.
+        pose proof (exec_pipeline_spec K keqb hash keqb_spec hash_inj s2 templ T al mids uc I2 S2 Hn) as H.
+        pose proof (exec_pipeline_cat s2 templ T al mids uc (iv_nodebug _ _ _ _ I2) C2) as HC.
+        destruct (exec_pipeline K keqb hash s2 templ T al mids uc) as [[s3 h] ev].
+        cbn in H, HC |- *. destruct H as (I3 & S3 & _ & Hc & _). destruct HC as [C3 K3].
+        destruct Hc as (c1 & c2 & c3 & c4 & c5 & c6 & c7 & c8).
+        split; [split; [|split]; auto|split; [eapply kept_trans; eauto|rewrite c8; reflexivity]]. }
+      destruct cached.
+      + cbn in Hok. rewrite Hok.
+        pose proof (Gen RT (Cte RT 0 [Leaf (LUid RTL u); Leaf (LUid RTR u)]) [RTL; RTR] [] false eq_refl) as G.
+        destruct (exec_pipeline K keqb hash s2 RT (Cte RT 0 [Leaf (LUid RTL u); Leaf (LUid RTR u)]) [RTL; RTR] [] false) as [[s3 h] ev].
+        exact G.
+      + pose proof (Gen PREDICT (Cte PREDICT 999 [Leaf (LUid RTL u); Leaf (LUid RTR u)]) [RTL; RTR]
+                        ["__splink__compare_two_records_blocked"; CVV; MWP] true eq_refl) as G.
+        destruct (exec_pipeline K keqb hash s2 PREDICT (Cte PREDICT 999 [Leaf (LUid RTL u); Leaf (LUid RTR u)]) [RTL; RTR]
+                                ["__splink__compare_two_records_blocked"; CVV; MWP] true) as [[s3 h] ev].
+        exact G.
   Qed.
   (* ---------------------------------------------------------------- histories *)
-  Lemma crun_inv cs : forall s, forallb cop_safe cs = true -> CInv s -> CInv (crun s cs) /\ kept s (crun s cs).
+  Lemma crun_inv cs : forall s, forallb (cop_safe (st_fix K s)) cs = true -> CInv s ->
+    CInv (crun s cs) /\ kept s (crun s cs) /\ st_fix K (crun s cs) = st_fix K s.
   Proof.
-    induction cs as [|c r IH]; cbn; intros s Hok Hi; [split; [exact Hi|apply kept_refl]|].
+    induction cs as [|c r IH]; cbn; intros s Hok Hi; [split; [exact Hi|split; [apply kept_refl|reflexivity]]|].
     apply andb_true_iff in Hok. destruct Hok as [H1 H2].
-    destruct (cstep_inv s c H1 Hi) as [Hi1 K1]. destruct (IH _ H2 Hi1) as [Hi2 K2].
-    split; [exact Hi2|eapply kept_trans; eauto].
+    destruct (cstep_inv s c H1 Hi) as (Hi1 & K1 & F1). rewrite <- F1 in H2. destruct (IH _ H2 Hi1) as (Hi2 & K2 & F2).
+    split; [exact Hi2|split; [eapply kept_trans; eauto|etransitivity; [exact F2|exact F1]]].
   Qed.
 
   Lemma aget_app {V} (a b : list (pname K * V)) k :
@@ -332,23 +354,24 @@ Section CatalogProofs.
 
   (* ---------------------------------------------------------------- C18 statements *)
   Theorem user_tables_untouched inputs ver others tfcols params uid luid fx cs :
-    forallb cop_safe cs = true ->
+    forallb (cop_safe fx) cs = true ->
     let s0 := cinit K inputs ver others tfcols params uid luid fx in
     forall l e, aget (st_db K s0) (PL l) = Some e -> aget (st_db K (crun s0 cs)) (PL l) = Some e.
   Proof.
-    intros Hok s0 l e H. destruct (crun_inv cs s0 Hok (cinit_inv inputs ver others tfcols params uid luid fx)) as [_ Kp].
+    intros Hok s0 l e H. destruct (crun_inv cs s0 Hok (cinit_inv inputs ver others tfcols params uid luid fx)) as (_ & Kp & _).
     apply Kp. exact H.
   Qed.
 
   (* also every table the caller registers during the history stays as it was registered *)
   Theorem registered_tables_untouched inputs ver others tfcols params uid luid fx cs1 cs2 :
-    forallb cop_safe (cs1 ++ cs2) = true ->
+    forallb (cop_safe fx) (cs1 ++ cs2) = true ->
     let s0 := cinit K inputs ver others tfcols params uid luid fx in
     forall l e, aget (st_db K (crun s0 cs1)) (PL l) = Some e -> aget (st_db K (crun s0 (cs1 ++ cs2))) (PL l) = Some e.
   Proof.
     intros Hok s0 l e H. rewrite forallb_app in Hok. apply andb_true_iff in Hok. destruct Hok as [H1 H2].
-    destruct (crun_inv cs1 s0 H1 (cinit_inv inputs ver others tfcols params uid luid fx)) as [Hi _].
-    destruct (crun_inv cs2 _ H2 Hi) as [_ Kp].
+    destruct (crun_inv cs1 s0 H1 (cinit_inv inputs ver others tfcols params uid luid fx)) as (Hi & _ & Fx).
+    assert (H2' : forallb (cop_safe (st_fix K (crun s0 cs1))) cs2 = true) by (rewrite Fx; exact H2).
+    destruct (crun_inv cs2 _ H2' Hi) as (_ & Kp & _).
     unfold Catalog.crun in *. rewrite fold_left_app. apply Kp. exact H.
   Qed.
 
@@ -371,7 +394,7 @@ Section CatalogProofs.
   Definition no_splink (s : state) : Prop := forall p e, aget (st_db K s) p = Some e -> e_origin e <> Splink.
 
   Theorem cleanup_exact inputs ver others tfcols params uid luid fx cs :
-    forallb cop_safe cs = true ->
+    forallb (cop_safe fx) cs = true ->
     let s := crun (cinit K inputs ver others tfcols params uid luid fx) cs in
     forall c, c = COp DeleteTables \/ c = COp InvalidateCache ->
       let s' := fst (cstep s c) in
@@ -380,9 +403,9 @@ Section CatalogProofs.
       (forall n k, amem (st_db K s') (PH n k) = false).
   Proof.
     intros Hok s c Hc s'.
-    destruct (crun_inv cs _ Hok (cinit_inv inputs ver others tfcols params uid luid fx)) as [(I & Hs & C) _]. fold s in I, Hs, C.
-    assert (Hsafe : cop_safe c = true) by (destruct Hc; subst; reflexivity).
-    destruct (cstep_inv s c Hsafe (conj I (conj Hs C))) as [(I' & Hs' & C') _]. fold s' in I', Hs', C'.
+    destruct (crun_inv cs (cinit K inputs ver others tfcols params uid luid fx) Hok (cinit_inv inputs ver others tfcols params uid luid fx)) as ((I & Hs & C) & _). fold s in I, Hs, C.
+    assert (Hsafe : cop_safe (st_fix K s) c = true) by (destruct Hc; subst; reflexivity).
+    destruct (cstep_inv s c Hsafe (conj I (conj Hs C))) as ((I' & Hs' & C') & _). fold s' in I', Hs', C'.
     assert (NH : forall n k, amem (st_db K s') (PH n k) = false).
     { destruct Hc; subst c; unfold s'; cbn -[invalidate delete_tables].
       - destruct (delete_tables_spec K keqb hash keqb_spec s I) as (_ & _ & N & _). exact N.
